@@ -473,6 +473,7 @@ package leader
 //@   on lock kvElection.mu set ctxNilL = e.ctx == nil
 //@   on store kvElection.isLeader as s when s.value set claimed = true
 //@   ensures C08.promote_once: spawns(becomeLeader$3) == ((claimed && promoteSet) ? 1 : 0)
+//@   ensures C08.promotion_goroutine_calls_back: scalls(onPromote) == ((claimed && promoteSet) ? 1 : 0)
 //@   ensures C09.no_promote_after_stop: stateL == "STOPPED" || ctxNilL ==> !claimed && spawns(becomeLeader$1) == 0 && spawns(becomeLeader$2) == 0 && spawns(becomeLeader$3) == 0
 //@   ensures C02.claims_when_running: stateL != "STOPPED" && !ctxNilL ==> claimed && spawns(becomeLeader$1) == 1 && spawns(becomeLeader$2) == 1
 
@@ -496,6 +497,9 @@ package leader
 //@   on call cancel set termCancelled = true
 //@   on call ctxcancel set termCancelled = true
 //@   on call termCancel set termCancelled = true
+//@   ghost wrArmed Bool = false
+//@   on store kvElection.watcherRunning as s when !inspawn() set wrArmed = s.value
+//@   on spawn demote$1 assert C13+C06.one_watch_loop_at_a_time: !watcherSeen && wrArmed
 //@   ghost wrCleared Bool = false
 //@   on store kvElection.watcherRunning as s when inspawn() set wrCleared = !s.value
 //@   on ret demote$1 assert C06+C18.watcher_flag_cleared_on_exit: wrCleared
@@ -560,7 +564,7 @@ package leader
 //@   on select as s assert C09.stop_waits_time_boxed: s.blocking ==> s.hasAfter
 //@   ensures C08.demote_iff_claim_cleared: result == nil && !ctxNilL ==> (wasLeaderL ? (calls(onDemote) + scalls(onDemote) == 1 || (calls(onDemote) + scalls(onDemote) == 0 && demoteNilSeen)) : calls(onDemote) + scalls(onDemote) == 0)
 //@   ensures C09.delete_issued: result == nil && !ctxNilL && opts.DeleteKey && wasLeaderL ==> calls(KeyValue.Delete) == 1
-//@   ensures C01+C02.delete_only_with_option: !(opts.DeleteKey && wasLeaderL) ==> calls(KeyValue.Delete) == 0
+//@   ensures C01+C02+C07.delete_only_with_option: !(opts.DeleteKey && wasLeaderL) ==> calls(KeyValue.Delete) == 0
 //@   ensures C09.second_stop: ctxNilL ==> result == ErrAlreadyStopped && calls(cancel) == 0 && calls(onDemote) == 0 && calls(KeyValue.Delete) == 0
 
 //@ func (e *kvElection) Status()
